@@ -76,21 +76,22 @@ Print Assumptions C02_counts.
 Theorem C02_status : forall ops w,
   status_ok (sstatus (wst w)) ->
   status_ok (sstatus (wst (run w ops))) /\
-  (sstatus (wst w) <> ST_CONVERGED -> sstatus (wst (run w ops)) = ST_CONVERGED -> exists i, In (ODone i true) ops) /\
+  (sstatus (wst w) <> ST_CONVERGED -> sstatus (wst (run w ops)) = ST_CONVERGED -> In (ODone true true) ops) /\
   (sstatus (wst w) <> ST_FAILED -> sstatus (wst (run w ops)) = ST_FAILED -> exists i c, In (ODone i c) ops).
 Proof.
-  intros ops w H. split; [apply run_status; exact H|]. split; [apply run_converged|apply run_failed].
+  intros ops w H. split; [apply run_status; exact H|]. split; [apply run_converged_ok|apply run_failed].
 Qed.
 Print Assumptions C02_status.
 
 (* solver_t::done: stops iff converged or the step is not ok; go-on implies a valid state and leaves the status;
-   `converged` is only reported for a valid state (repo commit 3c2475d) *)
+   `converged` is only reported for a valid state (repo commit 3c2475d) after a successful iteration (iter_ok; repo commit
+   85997bc) *)
 Theorem C02_done_decision : forall s fc gc i c,
   snd (done_step s fc gc i c) = c || negb (i && valid s) /\
   (snd (done_step s fc gc i c) = false ->
      sstatus (fst (done_step s fc gc i c)) = sstatus s /\ valid s = true /\ i = true /\ c = false) /\
   (snd (done_step s fc gc i c) = true ->
-     sstatus (fst (done_step s fc gc i c)) = if c && valid s then ST_CONVERGED else ST_FAILED) /\
+     sstatus (fst (done_step s fc gc i c)) = if c && (i && valid s) then ST_CONVERGED else ST_FAILED) /\
   sfcalls (fst (done_step s fc gc i c)) = fc /\ sgcalls (fst (done_step s fc gc i c)) = gc /\
   sx (fst (done_step s fc gc i c)) = sx s /\ sfx (fst (done_step s fc gc i c)) = sfx s /\
   sgx (fst (done_step s fc gc i c)) = sgx s.
@@ -102,6 +103,13 @@ Theorem C02_done_ref : forall s fc gc i c,
   done_ref s i c = (snd (done_step s fc gc i c), sstatus (fst (done_step s fc gc i c))).
 Proof. exact done_ref_spec. Qed.
 Print Assumptions C02_done_ref.
+
+(* what repo commit 85997bc excludes: the decision as it was before (done_ref_prefix: status = converged && valid) reported
+   `converged` for a done(state, iter_ok = false, converged = true) call on a valid state; the current one reports `failed` *)
+Theorem C02_done_prefix_converged_after_failed_iteration :
+  exists s, valid s = true /\ done_ref_prefix s false true = (true, ST_CONVERGED) /\ done_ref s false true = (true, ST_FAILED).
+Proof. exact done_prefix_converged_after_failed_iteration. Qed.
+Print Assumptions C02_done_prefix_converged_after_failed_iteration.
 
 (* ---- history and value_test ----------------------------------------------------------------------------------- *)
 
@@ -147,13 +155,14 @@ Theorem C02_accept_returned : forall k eps evs r, accept k eps evs r = true ->
 Proof. exact accept_returned. Qed.
 Print Assumptions C02_accept_returned.
 
-(* status in {max_iters, converged, failed}; converged only from a done() call whose flag was true on a VALID state;
+(* status in {max_iters, converged, failed}; converged only from a done() call whose flag was true on a VALID state with
+   iter_ok = true (repo commit 85997bc);
    failed only from a call with iter_ok = false or an invalid state *)
 Theorem C02_accept_status : forall k eps evs r, accept k eps evs r = true ->
   status_ok (sstatus r) /\
   (sstatus r = ST_CONVERGED ->
      exists e, In e evs /\ same_state r (ev_after e) = true /\ ev_conv e = true /\ ev_ret e = true /\
-               valid (ev_s e) = true) /\
+               valid (ev_s e) = true /\ ev_iter_ok e = true) /\
   (sstatus r = ST_FAILED ->
      exists e, In e evs /\ same_state r (ev_after e) = true /\
                (ev_iter_ok e = false \/ valid (ev_s e) = false)).
@@ -193,7 +202,7 @@ Print Assumptions C02_accept_not_failed_valid.
 (* ---- the translated kernels are what the proofs assume (fails loudly when the source changes) ------------------ *)
 Theorem C02_kernels :
   (forall i v, src_done_step_ok i v = i && v) /\ (forall c s, src_done_stop c s = c || negb s) /\
-  (forall c v, src_done_status c v = if c && v then ST_CONVERGED else ST_FAILED) /\
+  (forall c k v, src_done_status c k v = if c && k then ST_CONVERGED else ST_FAILED) /\
   src_done_ret_stop = true /\ src_done_ret_go = false /\
   (forall it, src_vt_loop it = (it >? 0)) /\ (forall it, src_vt_pos it = it - 1) /\ (forall it, src_vt_index it = it - 1) /\
   (forall ii n, src_vt_none ii n = (ii =? n)) /\ (forall n p, src_vt_enough n p = (n >=? p)) /\
@@ -301,25 +310,25 @@ Theorem C02_lsloop_step_decrease : forall orc cfg,
 Proof. exact iter_decrease. Qed.
 Print Assumptions C02_lsloop_step_decrease.
 
-(* ... hence the clause "the value is not larger than the starting value": whenever no irregular step was accepted, a run
-   that ends with status max_iters, or with status converged after a successful last line search, returns a value <= f(x0) *)
-Theorem C02_lsloop_not_worse : forall orc cfg,
-  0 < C07_Defs.maxit (lc_prm cfg) ->
-  armijo_type (lc_alg cfg) = true -> PrimFloat.ltb PrimFloat.zero (C07_Defs.c1 (lc_prm cfg)) = true ->
-  forall x0 fuel,
-  let r := ls_solver_run orc cfg fuel x0 in
-  let s := ls_result cfg r in
-  lr_irreg r = false ->
-  (sstatus s = ST_MAX_ITERS \/ (sstatus s = ST_CONVERGED /\ lr_ok r = true)) ->
-  PrimFloat.leb (sfx s) (fst (o_eval orc 0 x0)) = true.
-Proof. exact lsloop_not_worse. Qed.
-Print Assumptions C02_lsloop_not_worse.
+(* ... hence the clause "the value is not larger than the starting value unless the status is failed": whenever no irregular
+   step was accepted, a run that does not end `failed` returns a value <= f(x0). (Before repo commit 85997bc this was FALSE of
+   the faithful model and stated as C02_lsloop_not_worse_unless_failed_refuted: a failed line search whose last trial point
+   passes the gradient test was reported `converged`; see C02_lsloop_prefix_trap.) *)
+Theorem C02_lsloop_not_worse_unless_failed : C02_lsloop_not_worse_unless_failed_full_statement.
+Proof. intros orc cfg fuel x0 M A C. exact (lsloop_not_worse orc cfg M A C x0 fuel). Qed.
+Print Assumptions C02_lsloop_not_worse_unless_failed.
 
-(* the stronger "unless failed" is FALSE of the faithful model: a FAILED line search (iter_ok = false) whose last trial
-   point passes the gradient test is reported `converged` by solver_t::done, with a value above the start *)
-Theorem C02_lsloop_not_worse_unless_failed_refuted : ~ C02_lsloop_not_worse_unless_failed_full_statement.
-Proof. exact s_lsloop_not_worse_unless_failed_refuted. Qed.
-Print Assumptions C02_lsloop_not_worse_unless_failed_refuted.
+(* the old witness: the run now ends `failed`; the pre-fix decision on the same last done() call says `converged`, value above
+   the start *)
+Theorem C02_lsloop_prefix_trap :
+  let c := ex_cfg BGd C07_Defs.Backtrack 1 100 in
+  let r := ex_run ex_trap c ex_zero in
+  sstatus (ls_result c r) = ST_FAILED /\ lr_ok r = false /\ lr_irreg r = false /\ valid (lr_c r) = true /\
+  PrimFloat.ltb (gradient_test (lr_c r)) (lc_eps c) = true /\ PrimFloat.ltb ex_zero (sfx (ls_result c r)) = true /\
+  done_ref_prefix (lr_c r) (lr_ok r) (PrimFloat.ltb (gradient_test (lr_c r)) (lc_eps c)) = (true, ST_CONVERGED) /\
+  done_ref (lr_c r) (lr_ok r) (PrimFloat.ltb (gradient_test (lr_c r)) (lc_eps c)) = (true, ST_FAILED).
+Proof. exact s_prefix_trap. Qed.
+Print Assumptions C02_lsloop_prefix_trap.
 
 (* CG_DESCENT (the default lsearchk) and the slack the property allows: an accepted iterate satisfies Armijo, or the
    approximate Armijo bound f_k + epsilon*|f_k|, or comes from "bracketing failed" (no acceptance condition evaluated);
@@ -338,7 +347,7 @@ Proof. exact iter_cg_slack. Qed.
 Print Assumptions C02_lsloop_cgdescent_slack.
 
 (* (4) status facts of the returned state: the status is one of the three; `converged` only with a valid state on which the
-   gradient criterion holds; `failed` only for the current state after a failed line search or with an invalid state;
+   gradient criterion holds AND the last line search succeeded (repo commit 85997bc); `failed` only for the current state after a failed line search or with an invalid state;
    `max_iters` only with a valid state, through the budget test (or lack of fuel) or because cgd/lbfgs/quasi hand back
    pstate for an invalid cstate; cgd/lbfgs/quasi return a valid state whenever the loop was entered *)
 Theorem C02_lsloop_status : forall orc cfg,
@@ -346,7 +355,7 @@ Theorem C02_lsloop_status : forall orc cfg,
   let r := ls_solver_run orc cfg fuel x0 in
   let s := ls_result cfg r in
   status_ok (sstatus s) /\
-  (sstatus s = ST_CONVERGED -> valid s = true /\ PrimFloat.ltb (gradient_test s) (lc_eps cfg) = true) /\
+  (sstatus s = ST_CONVERGED -> valid s = true /\ PrimFloat.ltb (gradient_test s) (lc_eps cfg) = true /\ lr_ok r = true) /\
   (sstatus s = ST_FAILED -> s = lr_c r /\ (lr_ok r = false \/ valid s = false)) /\
   (sstatus s = ST_MAX_ITERS ->
      valid s = true /\
@@ -380,7 +389,7 @@ Example C02_nonvacuous_lsloop :
   ex_show (ex_cfg BCgd C07_Defs.Fletcher 128 100) (ex_run ex_parab (ex_cfg BCgd C07_Defs.Fletcher 128 100) ex_one)
   = ([ex_one], ex_zero, ST_CONVERGED, (1, 1), 0, (true, false), EX_INIT) /\
   (let c := ex_cfg BGd C07_Defs.Backtrack 1 100 in let r := ex_run ex_trap c ex_zero in
-   sstatus (ls_result c r) = ST_CONVERGED /\ lr_ok r = false /\ PrimFloat.ltb ex_zero (sfx (ls_result c r)) = true) /\
+   sstatus (ls_result c r) = ST_FAILED /\ lr_ok r = false /\ PrimFloat.ltb ex_zero (sfx (ls_result c r)) = true) /\
   0 < C07_Defs.maxit (lc_prm (ex_cfg BGd C07_Defs.Lemarechal 128 12)) /\
   armijo_type (lc_alg (ex_cfg BGd C07_Defs.Lemarechal 128 12)) = true /\
   PrimFloat.ltb PrimFloat.zero (C07_Defs.c1 (lc_prm (ex_cfg BGd C07_Defs.Lemarechal 128 12))) = true.
